@@ -39,6 +39,23 @@ type TableCheck struct {
 	// the variable is initialised by regexp.MustCompile(<constant>): the pattern must match whole
 	// strings only (anchored with ^ ... $ after optional flags)
 	RegexpWholeMatch bool `json:"regexp_whole_match"`
+	// every non-empty entry of a [N]string table indexed by character must be a JSON escape
+	// sequence (RFC 8259 section 7) that decodes to exactly its own index
+	JSONEscapes bool `json:"json_escapes"`
+}
+
+// jsonEscapeDecodes reports whether esc is one JSON escape sequence denoting the character c.
+func jsonEscapeDecodes(esc string, c int64) bool {
+	if len(esc) == 2 && esc[0] == '\\' {
+		short := map[byte]int64{'"': '"', '\\': '\\', '/': '/', 'b': 8, 'f': 12, 'n': 10, 'r': 13, 't': 9}
+		v, ok := short[esc[1]]
+		return ok && v == c
+	}
+	if len(esc) == 6 && esc[0] == '\\' && esc[1] == 'u' {
+		v, err := strconv.ParseUint(esc[2:], 16, 32)
+		return err == nil && int64(v) == c
+	}
+	return false
 }
 
 // literalOf finds the composite literal initialising a package-level variable.
@@ -356,6 +373,19 @@ func (e *Engine) checkTable(tc TableCheck) {
 				goal = "true"
 			}
 			e.oblige(fx, st, "table", fmt.Sprintf("nonempty[%d]", i), goal, fmt.Sprintf("%s[%d] must be a non-empty escape (value %q)", tc.Var, i, entries[int64(i)]), 0)
+		}
+	}
+	if tc.JSONEscapes {
+		var idx []int64
+		for i := range entries {
+			idx = append(idx, i)
+		}
+		sort.Slice(idx, func(a, b int) bool { return idx[a] < idx[b] })
+		for _, i := range idx {
+			if entries[i] == "" {
+				continue
+			}
+			e.oblige(fx, st, "table", fmt.Sprintf("json-escape[%d]", i), tf(jsonEscapeDecodes(entries[i], i)), fmt.Sprintf("%s[%d] = %q must be a JSON escape sequence that denotes character %d", tc.Var, i, entries[i], i), 0)
 		}
 	}
 	for k, want := range tc.Expect {
@@ -882,4 +912,98 @@ func (e *Engine) checkMapOrderIndependence(fn *ssa.Function) {
 				fmt.Sprintf("text is written inside a loop over a map (%v): the result depends on Go's random map iteration order", writers), rng.Pos())
 		}
 	}
+	if k == 0 {
+		return
+	}
+	// the keys collected from the map are put into an order before they are written. That order
+	// must not depend on the order of collection: a sort by the key strings themselves
+	// (sort.Strings / slices.Sort) is total; a sort with a comparator is total only if ties
+	// between different keys are impossible, i.e. the comparator also compares the raw elements
+	// (a comparator over a normalised form alone - lower-cased, truncated, by length - leaves
+	// keys that normalise alike in collection order, which is the map's random order).
+	sorts := 0
+	n := 0
+	for _, b := range fn.Blocks {
+		for _, ins := range b.Instrs {
+			c, ok := ins.(ssa.CallInstruction)
+			if !ok {
+				continue
+			}
+			f, ok := c.Common().Value.(*ssa.Function)
+			if !ok || f.Pkg == nil {
+				continue
+			}
+			full := f.Pkg.Pkg.Path() + "." + f.Name()
+			if i := strings.Index(full, "["); i >= 0 {
+				full = full[:i]
+			}
+			switch full {
+			case "sort.Strings", "slices.Sort":
+				sorts++
+			case "sort.Slice", "sort.SliceStable", "slices.SortFunc", "slices.SortStableFunc":
+				sorts++
+				n++
+				var cmp *ssa.Function
+				for _, a := range c.Common().Args {
+					switch v := a.(type) {
+					case *ssa.MakeClosure:
+						cmp, _ = v.Fn.(*ssa.Function)
+					case *ssa.Function:
+						cmp = v
+					}
+				}
+				st := &State{fx: fx, declSet: map[string]bool{}, pcSet: map[string]bool{}, ghostV: map[string]Value{}}
+				st.heap = &HeapView{m: map[string]string{}, base: "0"}
+				st.old = st.heap
+				txt, _ := e.srcLine(ins.Pos())
+				e.oblige(fx, st, "order", fmt.Sprintf("sort-of-map-keys-total:%s#%d", strings.TrimSpace(txt), n), tf(cmp != nil && comparesRawElements(cmp)),
+					"the comparator that orders keys collected from a map never compares the keys themselves: keys it treats as equal stay in Go's random map iteration order", ins.Pos())
+			}
+		}
+	}
+	st := &State{fx: fx, declSet: map[string]bool{}, pcSet: map[string]bool{}, ghostV: map[string]Value{}}
+	st.heap = &HeapView{m: map[string]string{}, base: "0"}
+	st.old = st.heap
+	e.oblige(fx, st, "order", "map-keys-sorted-before-use", tf(sorts > 0), "keys are collected from a map but never sorted: their order is Go's random map iteration order", fn.Pos())
+}
+
+func tf(b bool) string {
+	if b {
+		return "true"
+	}
+	return "false"
+}
+
+// comparesRawElements: the comparator contains an ordering comparison whose two operands are both
+// loaded straight from elements of a slice (names[i] < names[j]) or are its own string parameters.
+func comparesRawElements(cmp *ssa.Function) bool {
+	raw := func(v ssa.Value) bool {
+		switch x := v.(type) {
+		case *ssa.Parameter:
+			return true
+		case *ssa.UnOp:
+			if x.Op == token.MUL {
+				_, ok := x.X.(*ssa.IndexAddr)
+				return ok
+			}
+		case *ssa.Index:
+			return true
+		}
+		return false
+	}
+	for _, b := range cmp.Blocks {
+		for _, ins := range b.Instrs {
+			switch x := ins.(type) {
+			case *ssa.BinOp:
+				if (x.Op == token.LSS || x.Op == token.GTR || x.Op == token.LEQ || x.Op == token.GEQ) && raw(x.X) && raw(x.Y) {
+					return true
+				}
+			case *ssa.Call:
+				if f, ok := x.Call.Value.(*ssa.Function); ok && f.Pkg != nil && (f.Pkg.Pkg.Path() == "strings" || f.Pkg.Pkg.Path() == "cmp") && f.Name() == "Compare" && len(x.Call.Args) == 2 && raw(x.Call.Args[0]) && raw(x.Call.Args[1]) {
+					return true
+				}
+			}
+		}
+	}
+	return false
 }
